@@ -110,3 +110,10 @@ Theorem C11c_held_model_seeded :
   held_codes 0 1 0 (held_model packetdump_rtcp_check_hcfg 0 PRtcp [PRtp] []) = [].
 Proof. exact held_model_seeded. Qed.
 Print Assumptions C11c_held_model_seeded.
+
+(* one more clause for the sequential scripts (set c11): the oracle "Bind x directly after Unbind x starts from
+   fresh state" reports no code exactly when the clause holds on the observations *)
+Theorem C11c_release_oracle_sound : forall ops prev obs,
+  release_codes prev ops obs = [] <-> release_ok prev ops obs.
+Proof. exact release_codes_nil_iff. Qed.
+Print Assumptions C11c_release_oracle_sound.
